@@ -391,13 +391,16 @@ func runC16(c *Ctx) {
 			n := extractOf(wt, 0)
 			errv := extractOf(wt, 1)
 			reserved, committed, dropped := false, false, false
+			// all on the buffer the frame is serialised into
+			target := stripConv(wt.Call.Args[1])
+			same := func(cc ssa.CallInstruction) bool { return stripConv(cc.Common().Args[0]) == target }
 			for _, rc := range callsToFn(enc, bb("Reserve")) {
-				if dominatesInstr(rc.(ssa.Instruction), wt) {
+				if same(rc) && dominatesInstr(rc.(ssa.Instruction), wt) {
 					reserved = true
 				}
 			}
 			for _, cc := range callsToFn(enc, bb("Commit")) {
-				if stripConv(cc.Common().Args[1]) == n && dominatesInstr(wt, cc.(ssa.Instruction)) {
+				if same(cc) && stripConv(cc.Common().Args[1]) == n && dominatesInstr(wt, cc.(ssa.Instruction)) {
 					committed = true
 					// unconditional
 					if len(guardsOf(cc.(ssa.Instruction).Block())) != 0 {
@@ -406,7 +409,7 @@ func runC16(c *Ctx) {
 				}
 			}
 			for _, cc := range callsToFn(enc, bb("Consume")) {
-				if stripConv(cc.Common().Args[1]) == n {
+				if same(cc) && stripConv(cc.Common().Args[1]) == n {
 					for _, l := range guardsOf(cc.(ssa.Instruction).Block()) {
 						if x, eq, ok := l.nilTest(); ok && !eq && strip(x) == errv {
 							dropped = true
@@ -421,7 +424,7 @@ func runC16(c *Ctx) {
 				}
 			}
 			good = reserved && committed && dropped && okRet
-			why = "Encode must reserve space, commit exactly the byte count WriteTo reported, drop those bytes when WriteTo failed and return its error"
+			why = "Encode must reserve space in the buffer it serialises into, commit exactly the byte count WriteTo reported to it, drop those bytes from it when WriteTo failed and return its error"
 		}
 		c.check(good, enc, "encode", enc.Pos(), "reserve / commit n / consume n on error", why+": a partially encoded frame is left in (or missing from) the write buffer")
 	}
